@@ -731,8 +731,23 @@ class RequestHandler:
             # The setitem interface is case-insensitive, so continue to support
             # kwargs for backwards compatibility until we can remove deprecated
             # features.
-            for k, v in kwargs.items():
-                morsel[k] = v
+            try:
+                for k, v in kwargs.items():
+                    # Same rule as for the named attributes above (Morsel
+                    # quotes only Comment itself).
+                    if (
+                        isinstance(v, str)
+                        and k.lower() != "comment"
+                        and re.search(r"[\x00-\x20\x3b\x7f]", v)
+                    ):
+                        raise http.cookies.CookieError(
+                            f"Invalid cookie attribute {k}={v!r} for cookie {name!r}"
+                        )
+                    morsel[k] = v
+            except http.cookies.CookieError:
+                # Do not leave a half-configured cookie behind to be sent.
+                del self._new_cookie[name]
+                raise
             warnings.warn(
                 f"Deprecated arguments to set_cookie: {set(kwargs.keys())} "
                 "(should be lowercase)",
